@@ -57,7 +57,7 @@ def mutations(fr, hdr_len, rng, tier):
     cuts = range(0, n) if n <= (48 if tier == "quick" else 400) else sorted({rng.below(n) for _ in range(32)} | {hdr_len, hdr_len + 1, n - 1})
     for c in cuts:
         out.append(("truncate", fr[:c]))
-    step = (1 if n <= 40 else max(1, n // 40)) if tier == "quick" else (1 if n <= 160 else max(1, n // 160))     # thorough: every position of frames up to 160 bytes, 160 positions of longer ones
+    step = (1 if n <= 40 else max(1, n // 40)) if tier == "quick" else (1 if n <= 96 else max(1, n // 96))     # thorough: every position of frames up to 96 bytes, 96 positions of longer ones
     for pos in range(hdr_len, n, step):
         for w in (1, 2, 4):
             if pos + w > n:
@@ -74,7 +74,7 @@ def mutations(fr, hdr_len, rng, tier):
             f = int.from_bytes(fr[:2], "big") + delta
             if 0 <= f <= 0xFFFF:
                 out.append(("header-size", f.to_bytes(2, "big") + fr[2:]))
-    for _ in range(4 if tier == "quick" else 32):
+    for _ in range(4 if tier == "quick" else 16):
         b = bytearray(fr)
         for _ in range(1 + rng.below(4)):
             if n > hdr_len:
